@@ -473,9 +473,188 @@ def c16(m, o):
     return {"checks": checks, "violations": viol[:20]}
 
 
+def _hex(v):
+    return [float(x).hex() for x in np.asarray(v, dtype=float).reshape(-1)]
+
+
+def _rebuild_and_run(prog, p, solver="euler", **runner_kw):
+    import impl
+    m2, err, why = impl.build(prog)
+    if err is not None:
+        raise RuntimeError("variant does not build at op %s: %s" % (err, why))
+    m2.run(p, solver=solver, jit=False, rebuild=True)
+    return m2
+
+
+def c14(m, o):
+    """whitelists, save flags, declaration orders and the full-outputs switch only remove entries"""
+    import itertools
+    import random
+    from fractions import Fraction
+    prog = o["program"]
+    p = {k: float(Fraction(v)) for k, v in (o.get("params") or {}).items()}
+    rng = random.Random(o.get("seed", 0))
+    viol, checks = [], 0
+    ops = prog["ops"]
+    req_idx = [i for i, x in enumerate(ops) if x["op"] == "req"]
+    names = [ops[i]["name"] for i in req_idx]
+    base_ops = [dict(x, save=True) if x["op"] == "req" else x for x in ops if x["op"] != "whitelist"]
+    base = _rebuild_and_run(dict(prog, ops=base_ops), p)
+    D = {k: _hex(v) for k, v in base.derived_outputs.items()}
+    if sorted(D) != sorted(names):
+        viol.append("full evaluation returns %s, requested %s" % (sorted(D), sorted(names)))
+    subsets = [list(c) for r in range(1, len(names) + 1) for c in itertools.combinations(names, r)]
+    if not o.get("exhaustive") and len(subsets) > 10:
+        subsets = rng.sample(subsets, 10)
+    for W in subsets:
+        v = _rebuild_and_run(dict(prog, ops=base_ops + [{"op": "whitelist", "names": W}]), p)
+        checks += 1
+        got = {k: _hex(x) for k, x in v.derived_outputs.items()}
+        if sorted(got) != sorted(W):
+            viol.append("whitelist %s returns keys %s" % (W, sorted(got)))
+        for k in W:
+            if k in got and got[k] != D.get(k):
+                viol.append("whitelist %s changes the value of %s" % (W, k))
+    flags = list(itertools.product([True, False], repeat=len(names)))
+    if not o.get("exhaustive") and len(flags) > 8:
+        flags = rng.sample(flags, 8)
+    for fl in flags:
+        fops, j = [], 0
+        for x in base_ops:
+            if x["op"] == "req":
+                fops.append(dict(x, save=fl[j]))
+                j += 1
+            else:
+                fops.append(x)
+        v = _rebuild_and_run(dict(prog, ops=fops), p)
+        checks += 1
+        got = {k: _hex(x) for k, x in v.derived_outputs.items()}
+        exp = [n for n, f in zip(names, fl) if f]
+        if sorted(got) != sorted(exp):
+            viol.append("save flags %s return keys %s, expected %s" % (fl, sorted(got), sorted(exp)))
+        for k in got:
+            if got[k] != D.get(k):
+                viol.append("save flags %s change the value of %s" % (fl, k))
+    # declaration orders consistent with the dependencies
+    deps = {}
+    for i in req_idx:
+        r = ops[i]["req"]
+        deps[ops[i]["name"]] = list(r.get("sources", [])) + ([r["source"]] if "source" in r else [])
+    perms = []
+    for perm in itertools.permutations(range(len(names))):
+        order = [names[i] for i in perm]
+        if all(order.index(d) < order.index(n) for n in order for d in deps[n] if d in order):
+            perms.append(order)
+        if len(perms) > (120 if o.get("exhaustive") else 6):
+            break
+    non_req = [x for x in base_ops if x["op"] != "req"]
+    byname = {x["name"]: x for x in base_ops if x["op"] == "req"}
+    for order in perms[1:]:
+        v = _rebuild_and_run(dict(prog, ops=non_req + [byname[n] for n in order]), p)
+        checks += 1
+        got = {k: _hex(x) for k, x in v.derived_outputs.items()}
+        for k in got:
+            if got[k] != D.get(k):
+                viol.append("declaration order %s changes the value of %s" % (order, k))
+    # omitting the full compartment outputs
+    import impl
+    m3, _, _ = impl.build(dict(prog, ops=base_ops))
+    # (ModelResults.run is the AuTuMN wrapper and expects the full outputs; the runner function is the API here)
+    res = m3.get_runner(p, jit=False, include_full_outputs=False, solver="euler").function(parameters=p)
+    checks += 1
+    if "outputs" in res:
+        viol.append("include_full_outputs=False still returns the outputs")
+    for k, x in res["derived_outputs"].items():
+        if _hex(x) != D.get(k):
+            viol.append("include_full_outputs=False changes the value of %s" % k)
+    return {"checks": checks, "violations": viol[:12]}
+
+
+def _pyexpr(e, p, t, xc):
+    """plain-Python evaluation of a program expression (used for computed values)"""
+    from fractions import Fraction
+    if isinstance(e, str):
+        return t if e == "t" else float(Fraction(e))
+    (k, v), = e.items()
+    if k == "p":
+        return p[v]
+    if k == "c":
+        return xc[min(int(v), len(xc) - 1)]
+    a, b = _pyexpr(v[0], p, t, xc), _pyexpr(v[1], p, t, xc)
+    return {"+": a + b, "-": a - b, "*": a * b, "/": a / b if b else float("nan")}[k]
+
+
+def c08(m, o):
+    """every derived output recomputed from its definition on the solved trajectory"""
+    from fractions import Fraction
+    from jax import numpy as jnp
+    p = {k: float(Fraction(v)) for k, v in (o.get("params") or {}).items()}
+    viol, checks = [], 0
+    solver = o.get("solver", "euler")
+    m.run(p, solver=solver, jit=False, rebuild=True)
+    out = np.asarray(m.outputs, dtype=float)
+    D = {k: np.asarray(v, dtype=float) for k, v in m.derived_outputs.items()}
+    if not np.isfinite(out).all():
+        return {"checks": 0, "violations": []}
+    runner = m.get_runner(p, jit=False)
+    ts = np.asarray(m.times, dtype=float)
+    rates = np.array([np.asarray(runner.impl_dict["one_step"](p, float(t), jnp.array(row)).flow_rates, dtype=float)
+                      for t, row in zip(ts, out)])
+    vals = {}
+    whitelist = o.get("whitelist")
+    for rq in o["reqs"]:
+        name, r = rq["name"], rq["req"]
+        t_ = r["type"]
+        if t_ == "comp":
+            idx = [i for i, c in enumerate(m.compartments) if c.name in r["names"] and _contains(c.strata, r.get("filt") or {})]
+            v = out[:, idx].sum(axis=1)
+        elif t_ == "flow":
+            idx = [i for i, f in enumerate(m.flows) if f.name == r["flow_name"]
+                   and (not f.source or _contains(f.source.strata, r.get("sf") or {}))
+                   and (not f.dest or _contains(f.dest.strata, r.get("df") or {}))]
+            raw = rates[:, idx].sum(axis=1) if idx else np.zeros(len(ts))
+            if r.get("raw"):
+                v = raw
+            else:
+                v = raw.copy()
+                v[1:] = (raw[1:] + raw[:-1]) * 0.5
+        elif t_ == "agg":
+            v = sum(vals[s_] for s_ in r["sources"])
+        elif t_ == "cum":
+            src = vals[r["source"]]
+            if r.get("start") is None:
+                v = np.cumsum(src)
+            else:
+                st = float(Fraction(r["start"]))
+                k = int(np.where(ts == st)[0][0])
+                v = np.zeros(len(ts))
+                v[k:] = np.cumsum(src[k:])
+        elif t_ == "func":
+            srcs = [vals[s_] for s_ in r["sources"]]
+            ps = [_pyexpr(e, p, 0.0, []) for e in r.get("params", [])]
+            fn = int(r["fn"])
+            v = ps[0] * srcs[0] if fn == 0 else (srcs[0] + ps[0] * srcs[1] if fn == 1 else srcs[0] * srcs[1])
+        elif t_ == "cv":
+            e = o["cvs"][r["name"]]
+            v = np.array([_pyexpr(e, p, float(t), np.where(row < 0, 0.0, row)) for t, row in zip(ts, out)])
+        else:
+            continue
+        vals[name] = np.asarray(v, dtype=float)
+        if name in D:
+            checks += 1
+            scale = 1 + np.abs(vals[name]).max()
+            if D[name].shape != vals[name].shape or np.abs(D[name] - vals[name]).max() > 1e-8 * scale:
+                viol.append("derived output %s (%s) = %s, its definition gives %s" % (name, t_, np.round(D[name], 8)[:5], np.round(vals[name], 8)[:5]))
+    expected_keys = whitelist if whitelist else [rq["name"] for rq in o["reqs"] if rq.get("save", True)]
+    checks += 1
+    if sorted(D) != sorted(expected_keys):
+        viol.append("returned keys %s, expected %s" % (sorted(D), sorted(expected_keys)))
+    return {"checks": checks, "violations": viol[:10]}
+
+
 ORACLES = {"c01": c01, "c02": c02}
 MODEL_ORACLES = {"c02_traj": c02_traj, "c13": c13, "c12": c12, "c12_dates": c12_dates,
-                 "c07": c07, "c07_closed": c07_closed, "c16": c16}
+                 "c07": c07, "c07_closed": c07_closed, "c16": c16, "c14": c14, "c08": c08}
 
 
 def run_oracle(m, o):
